@@ -66,9 +66,32 @@ Theorem C17_base_distinct_cover_order :
 Proof. exact (fun E K cmp CO rnd iszero key d flat => obj_unique_contract cmp CO rnd iszero key d flat). Qed.
 Print Assumptions C17_base_distinct_cover_order.
 
-(* FULL STATEMENT (index clause), which the faithful model REFUTES:
+(* INDEX ARRAY.  Every idx[k] is a position of the FLATTENED INPUT holding a
+   kept (non-zero) entry; np.sort(idx) is the increasing list of the positions
+   of the first occurrences among the kept entries and selects exactly the
+   returned entries, rnd (flat[np.sort(idx)[k]]) = out[k] -- on every input,
+   zero rows included (repaired: idx used to count positions in the zero-free
+   data).  Last clause = what remains of the finding below: idx itself is in
+   increasing KEY order. *)
+Theorem C17_base_index_partial :
+  forall E K (cmp : K -> K -> comparison), cmp_order cmp ->
+  forall (rnd : E -> E) (iszero : E -> bool) (key : E -> K) (d : E) (flat : list E),
+  let data := obj_data rnd iszero flat in
+  let out := fst (fst (obj_unique cmp rnd iszero key d flat)) in
+  let idx := snd (fst (obj_unique cmp rnd iszero key d flat)) in
+  (forall k, k < length idx ->
+     nth k idx 0 < length flat /\ iszero (rnd (nth (nth k idx 0) flat d)) = false) /\
+  sort_nat idx = map (fun i => nth i (obj_nzpos rnd iszero d flat) 0) (firsts cmp (map key data) (key d)) /\
+  (forall k, k < length out -> nth k out d = rnd (nth (nth k (sort_nat idx) 0) flat d)) /\
+  (forall a b, a < b -> b < length idx ->
+     cmp (key (rnd (nth (nth a idx 0) flat d))) (key (rnd (nth (nth b idx 0) flat d))) = Lt).
+Proof. exact (fun E K cmp CO rnd iszero key d flat => obj_idx_partial cmp CO rnd iszero key d flat). Qed.
+Print Assumptions C17_base_index_partial.
+
+(* FULL STATEMENT (index clause), which the faithful model still REFUTES:
      forall k < length out,  rnd (flat[idx[k]]) = out[k]
-   - idx is in key-sorted order while out is in first-appearance order; *)
+   idx is in key-sorted order while out is in first-appearance order (pinned
+   by orix/tests/test_miller.py::TestMiller::test_unique) *)
 Theorem C17_base_index_refuted :
   exists flat : list (list Z),
     let '(out, idx, inv) := zbase flat in
@@ -77,61 +100,41 @@ Theorem C17_base_index_refuted :
 Proof. exact base_index_refuted_order. Qed.
 Print Assumptions C17_base_index_refuted.
 
-(* - and idx counts positions in the zero-free data, not in the flattened input *)
-Theorem C17_base_index_zero_refuted :
-  exists flat : list (list Z),
-    let '(out, idx, inv) := zbase flat in
-    StronglySorted le idx /\
-    exists k, (k < length out)%nat /\ nth (nth k idx 0%nat) flat [] <> nth k out [].
-Proof. exact base_index_refuted_zero. Qed.
-Print Assumptions C17_base_index_zero_refuted.
-
-(* what idx / inv do satisfy on every input: idx is a permutation of the
-   first-occurrence positions of the zero-free data, listed in increasing KEY
-   order, and data[idx[inv[j]]] = data[j] *)
-Theorem C17_base_index_partial :
-  forall E K (cmp : K -> K -> comparison), cmp_order cmp ->
-  forall (rnd : E -> E) (iszero : E -> bool) (key : E -> K) (d : E) (flat : list E),
-  let data := obj_data rnd iszero flat in
-  let idx := snd (fst (obj_unique cmp rnd iszero key d flat)) in
-  let inv := snd (obj_unique cmp rnd iszero key d flat) in
-  Permutation idx (firsts cmp (map key data) (key d)) /\
-  (forall j, j < length data ->
-     keq cmp (key (nth (nth (nth j inv 0) idx 0) data d)) (key (nth j data d)) = true) /\
-  (forall a b, a < b -> b < length idx ->
-     cmp (key (nth (nth a idx 0) data d)) (key (nth (nth b idx 0) data d)) = Lt).
-Proof. exact (fun E K cmp CO rnd iszero key d flat => obj_idx_partial cmp CO rnd iszero key d flat). Qed.
-Print Assumptions C17_base_index_partial.
-
-(* outside the finding's stratum (nothing dropped, keys first appear in
-   increasing order) the index contract holds *)
+(* outside the finding's stratum (keys first appear in increasing order) the
+   index contract holds -- zero rows or not *)
 Theorem C17_base_index_outside_finding :
   forall E K (cmp : K -> K -> comparison), cmp_order cmp ->
   forall (rnd : E -> E) (iszero : E -> bool) (key : E -> K) (d : E) (flat : list E),
-  obj_data rnd iszero flat = map rnd flat ->
   StronglySorted le (snd (fst (obj_unique cmp rnd iszero key d flat))) ->
   forall k, k < length (fst (fst (obj_unique cmp rnd iszero key d flat))) ->
     nth k (fst (fst (obj_unique cmp rnd iszero key d flat))) d
-    = nth (nth k (snd (fst (obj_unique cmp rnd iszero key d flat))) 0) (map rnd flat) d.
-Proof. exact (fun E K cmp CO rnd iszero key d flat => obj_index_outside cmp rnd iszero key d flat). Qed.
+    = rnd (nth (nth k (snd (fst (obj_unique cmp rnd iszero key d flat))) 0) flat d).
+Proof. exact (fun E K cmp CO rnd iszero key d flat => obj_index_outside cmp CO rnd iszero key d flat). Qed.
 Print Assumptions C17_base_index_outside_finding.
 
+(* the hypothesis is satisfiable on an input WITH zero rows *)
 Example C17_base_index_outside_finding_nonvacuous :
-  let flat := [[1;0;0];[2;0;0];[1;0;0];[3;0;0]]%Z in
-  obj_data (fun r => r) zzero flat = map (fun r => r) flat /\
+  let flat := [[0;0;0];[1;0;0];[2;0;0];[1;0;0];[0;0;0];[3;0;0]]%Z in
+  obj_data (fun r => r) zzero flat <> map (fun r => r) flat /\
   StronglySorted le (snd (fst (zbase flat))).
 Proof. exact zbase_outside_example. Qed.
 
-(* FULL STATEMENT (inverse clause), REFUTED: out[inv[j]] = rnd flat[j] *)
-Theorem C17_base_inverse_refuted :
-  exists flat : list (list Z),
-    let '(out, idx, inv) := zbase flat in
-    filter (fun e => negb (zzero e)) flat = flat /\
-    exists j, (j < length flat)%nat /\
-              keq zcmp (nth (nth j inv 0%nat) out []) (nth j flat []) = false.
-Proof. exact base_inverse_refuted_order. Qed.
-Print Assumptions C17_base_inverse_refuted.
+(* INVERSE ARRAY (repaired; was refuted): one entry per kept entry of the
+   flattened input, and out[inv[j]] = data[j] up to the key, on every input *)
+Theorem C17_base_inverse :
+  forall E K (cmp : K -> K -> comparison), cmp_order cmp ->
+  forall (rnd : E -> E) (iszero : E -> bool) (key : E -> K) (d : E) (flat : list E),
+  let data := obj_data rnd iszero flat in
+  let out := fst (fst (obj_unique cmp rnd iszero key d flat)) in
+  let inv := snd (obj_unique cmp rnd iszero key d flat) in
+  length inv = length data /\
+  forall j, j < length data ->
+    nth j inv 0 < length out /\ keq cmp (key (nth (nth j inv 0) out d)) (key (nth j data d)) = true.
+Proof. exact (fun E K cmp CO rnd iszero key d flat => obj_inverse_contract cmp CO rnd iszero key d flat). Qed.
+Print Assumptions C17_base_inverse.
 
+(* dropped zero rows have no entry in inv (documented: zero entries are
+   removed), so inv reconstructs the flattened input only if nothing is dropped *)
 Theorem C17_base_inverse_length_refuted :
   exists flat : list (list Z),
     let '(out, idx, inv) := zbase flat in length inv <> length flat.
@@ -142,7 +145,6 @@ Theorem C17_base_inverse_outside_finding :
   forall E K (cmp : K -> K -> comparison), cmp_order cmp ->
   forall (rnd : E -> E) (iszero : E -> bool) (key : E -> K) (d : E) (flat : list E),
   obj_data rnd iszero flat = map rnd flat ->
-  StronglySorted le (snd (fst (obj_unique cmp rnd iszero key d flat))) ->
   length (snd (obj_unique cmp rnd iszero key d flat)) = length flat /\
   forall j, j < length flat ->
     nth j (snd (obj_unique cmp rnd iszero key d flat)) 0
@@ -152,6 +154,12 @@ Theorem C17_base_inverse_outside_finding :
             (key (nth j (map rnd flat) d)) = true.
 Proof. exact (fun E K cmp CO rnd iszero key d flat => obj_inverse_outside cmp CO rnd iszero key d flat). Qed.
 Print Assumptions C17_base_inverse_outside_finding.
+
+(* the former witnesses of the repaired clauses, evaluated on the model *)
+Example C17_base_repaired_examples :
+  zbase [[0;0;0];[5;0;0]]%Z = ([[5;0;0]]%Z, [1], [0]) /\
+  zbase [[3;0;0];[1;0;0];[3;0;0];[2;0;0]]%Z = ([[3;0;0];[1;0;0];[2;0;0]]%Z, [1;3;0], [0;1;0;2]).
+Proof. exact (conj zbase_zero_example zbase_order_example). Qed.
 
 (* the integer-row instance used for the witnesses satisfies the hypotheses
    of the general theorems *)
@@ -264,17 +272,18 @@ Theorem C17_base_contract_R :
 Proof. exact base_unique_R. Qed.
 Print Assumptions C17_base_contract_R.
 
-(* Rotation.unique on an empty input returns the bare object whatever flags
-   are passed (the caller's tuple unpacking fails) *)
-Theorem C17_rotation_empty_arity_refuted :
-  exists (ri rv : bool), rot_unique_arity (@nil (list Z)) ri rv <> obj_unique_arity ri rv.
-Proof. exact rot_arity_refuted. Qed.
-Print Assumptions C17_rotation_empty_arity_refuted.
+(* Rotation.unique returns as many values as the flags ask for on EVERY input,
+   the empty one included (repaired: the early return used to hand back the
+   bare object), and on the empty input they are empty *)
+Theorem C17_rotation_arity :
+  forall E (flat : list E) ri rv, rot_unique_arity flat ri rv = obj_unique_arity ri rv.
+Proof. exact (fun E flat ri rv => rot_arity flat ri rv). Qed.
+Print Assumptions C17_rotation_arity.
 
-Theorem C17_rotation_arity_outside_finding :
-  forall E (flat : list E) ri rv, flat <> [] -> rot_unique_arity flat ri rv = obj_unique_arity ri rv.
-Proof. exact (fun E flat ri rv => rot_arity_outside flat ri rv). Qed.
-Print Assumptions C17_rotation_arity_outside_finding.
+Theorem C17_rotation_empty :
+  forall E K (cmp : K -> K -> comparison) (key : E -> K) (d : E), rot_unique cmp key d [] = ([], [], []).
+Proof. exact (fun E K cmp key d => rot_unique_nil cmp key d). Qed.
+Print Assumptions C17_rotation_empty.
 
 (* ================== antipodal semantics: the differentiators =============== *)
 (* the key list regenerated from Rotation._differentiators is the ten
@@ -335,7 +344,7 @@ Example C17_rounding_nonvacuous : forall (dec : nat) (x : R),
 Proof. exact (fun dec x => conj (Rround_close dec x) (Rround_delta_small dec)). Qed.
 
 (* ================================ Miller.unique ============================ *)
-(* use_symmetry=False forwards the base class (and inherits its index defect) *)
+(* use_symmetry=False forwards the base class (and inherits its index-order finding) *)
 Theorem C17_miller_forwards_base :
   forall E K K2 (cmp : K -> K -> comparison) (cmp2 : K2 -> K2 -> comparison)
          (rnd : E -> E) (iszero : E -> bool) (key : E -> K) (d : E) (okey : E -> K2) (flat : list E),
@@ -383,27 +392,24 @@ Proof.
 Qed.
 Print Assumptions C17_miller_sym_order_partial.
 
-(* FULL STATEMENT (index clause): flat[idx[k]] = out[k], REFUTED; what idx is:
-   read backwards it indexes the base-class result *)
-Theorem C17_miller_sym_index_refuted :
-  exists flat : list (list Z),
-    let '(out, idx) := zmiller true flat in
-    exists k, (k < length out)%nat /\ nth (nth k idx 0%nat) flat [] <> nth k out [].
-Proof. exact miller_index_refuted. Qed.
-Print Assumptions C17_miller_sym_index_refuted.
-
-Theorem C17_miller_sym_index_partial :
-  forall E K K2 (cmp : K -> K -> comparison) (cmp2 : K2 -> K2 -> comparison)
-         (rnd : E -> E) (iszero : E -> bool) (key : E -> K) (d : E) (okey : E -> K2) (flat : list E) k,
-  let v := fst (fst (obj_unique cmp rnd iszero key d flat)) in
+(* INDEX ARRAY (repaired; was refuted): the k-th returned vector is the
+   rounded entry at position idx[k] of the flattened input, on every input *)
+Theorem C17_miller_sym_index :
+  forall E K K2 (cmp : K -> K -> comparison) (cmp2 : K2 -> K2 -> comparison),
+  cmp_order cmp -> cmp_order cmp2 ->
+  forall (rnd : E -> E) (iszero : E -> bool) (key : E -> K) (d : E) (okey : E -> K2) (flat : list E) k,
   let out := fst (miller_unique cmp cmp2 rnd iszero key d okey true flat) in
   let idx := snd (miller_unique cmp cmp2 rnd iszero key d okey true flat) in
-  k < length out -> nth k out d = nth (nth k (rev idx) 0) v d.
+  k < length out -> length idx = length out /\ nth k out d = rnd (nth (nth k idx 0) flat d).
 Proof.
-  exact (fun E K K2 cmp cmp2 rnd iszero key d okey flat k =>
-           miller_index_partial cmp cmp2 rnd iszero key d okey flat k).
+  exact (fun E K K2 cmp cmp2 CO CO2 rnd iszero key d okey flat k =>
+           miller_sym_index cmp cmp2 CO CO2 rnd iszero key d okey flat k).
 Qed.
-Print Assumptions C17_miller_sym_index_partial.
+Print Assumptions C17_miller_sym_index.
+
+Example C17_miller_sym_index_example :
+  zmiller true [[1;0;0];[0;1;0];[-1;0;0];[0;0;1]]%Z = ([[0;0;1];[0;1;0];[1;0;0]]%Z, [3;1;0]).
+Proof. exact zmiller_index_example. Qed.
 
 (* the canonical orbit key (sorted orbit) identifies exactly the orbits of a
    finite group given as a list closed under right multiplication *)
